@@ -634,6 +634,7 @@ type PNode struct {
 	Head    int64    `json:"head"`   // leader tracker (spec numbering), -1 when none
 	Commit  int64    `json:"commit"`
 	LastApp int64    `json:"lastapp"` // follower, -1 when none
+	Queued  int      `json:"queued"`  // sync requests queued behind the round in progress
 	Cursors map[string]int64 `json:"cursors"` // follower -> ack offset (spec numbering)
 }
 
@@ -683,6 +684,7 @@ func (s *Sim) Project(node string) (*PNode, error) {
 		p.Synced = d.WalLastSynced + 1
 	}
 	p.DbTerm = d.DbTerm + 1
+	p.Queued = d.SyncQueued
 	// the applied sequence is recovered from the version ids of the per-write records
 	type rec struct {
 		v   string
